@@ -2,6 +2,7 @@ import XmppModel.Model.Styling
 import XmppModel.Lemmas.Styling
 import XmppModel.Lemmas.StylingScanner
 import XmppModel.Lemmas.StylingStyle
+import XmppModel.Lemmas.StylingChunk
 import XmppModel.Generated.C17
 /-!
 # C17 — the styling decoder is lossless, chunk-independent and well-bracketed
@@ -230,5 +231,24 @@ theorem C17_no_directive_in_pre (lv : Level) (data : Bytes) (atEOF : Bool) :
 example : (decode none ⟨[], false⟩ [tick, star, 0x61, star, tick]).1 =
     some [⟨[tick], SpanPre ||| SpanPreStart, 0, none⟩, ⟨[star, 0x61, star], SpanPre, 0, none⟩,
           ⟨[tick], SpanPre ||| SpanPreEnd, 0, none⟩] := by decide
+
+/-! ### Chunk independence
+
+`Stable split I` (Lemmas/StylingChunk.lean): a token decided on a non-final window is the
+decision on every extension of the window (same advance, token and state), and a call that
+asks for more data leaves a state from which the next call behaves as from the old one. -/
+
+/-- **chunk independence, scanner level**: for *every* split function that honours the
+`SplitFunc` contract and is stable, every schedule (every cut of the input into reads,
+EOF with or after the last read) yields exactly the tokens and decoder states of the run
+that has the whole input buffered — for all inputs, by induction on the run. -/
+theorem C17_chunk_independent_generic {σ : Type} (split : Split σ) (I : σ → Prop)
+    (spec : SplitSpec split I) (st : Stable split I) (s0 : σ) (h0 : I s0)
+    (sch : Schedule) (doc : Bytes) :
+    scanner split none (fuelFor doc) sch.sizes sch.dataEOF s0 [] doc false =
+      refRun split (fuelFor doc) s0 doc := by
+  have := scanner_chunk_indep split I spec st (fuelFor doc) sch.sizes sch.dataEOF s0 [] doc false h0
+    (by simp) (by simp [runMeasure, fuelFor]) (fuelFor doc) (by simp [fuelFor]; omega)
+  simpa using this
 
 end XmppModel.Props.C17
